@@ -1,10 +1,11 @@
 import FV.Drv.RectSearch
-/- Line-protocol driver for the rectilinear shape search model (C08): `Q <op> <args…>`, one reply line. -/
+/- Line-protocol driver for the rectilinear shape search model (C08): `Q <op> <args…>` (all ops) / `F <op> <args…>` (`selbox`, `areas`: bit-exact doubles), one reply line. -/
 open FV FV.Drv
 
 def handle (line : String) : String :=
   match splitReq line with
-  | some ("Q", op, args) => (rectOp op args).getD "bad-op"
+  | some ("Q", op, args) => ((rectOp op args).orElse fun _ => ioOp (α := Rat) op args).getD "bad-op"
+  | some ("F", op, args) => (ioOp (α := Float) op args).getD "bad-op"
   | _ => "bad-op"
 
 def main : IO Unit := mainLoop handle
